@@ -68,3 +68,99 @@ Definition wf_field (f : field) : bool :=
   wf_name (fname f) && wf_value (fvalue f) && forallb (no_char ch_nl) (fcont f).
 Definition wf_stanza (st : list field) : bool :=
   match st with [] => false | _ => forallb wf_field st end.
+
+(* ------------------------------------------------------------------ Sources indices *)
+Inductive sfield :=
+| SFPackage (v : string)
+| SFDirectory (v : string)
+| SFSection (key : string) (files : list (string * string * string))   (* (hash, size text, name) per line *)
+| SFOther (f : field).
+
+Definition file_line (x : string * string * string) : string :=
+  let '(h, sz, n) := x in String ch_space (h +++ " " +++ sz +++ " " +++ n).
+Definition other_head (f : field) : string :=
+  fname f +++ ":" +++ match fvalue f with EmptyString => EmptyString | v => " " +++ v end.
+Definition sfield_lines (x : sfield) : list string :=
+  match x with
+  | SFPackage v => ["Package: " +++ v]
+  | SFDirectory v => ["Directory: " +++ v]
+  | SFSection k fs => (k +++ ":") :: map file_line fs
+  | SFOther f => other_head f :: map (fun c => String ch_space c) (fcont f)
+  end.
+Definition sstanza_lines (st : list sfield) : list string := flat_map sfield_lines st.
+
+Fixpoint sindex_lines (ss : list (list sfield * nat)) : list string :=
+  match ss with
+  | [] => []
+  | (st, k) :: r => sstanza_lines st ++ empties (S k) ++ sindex_lines r
+  end.
+
+Definition render_sources_spaced (ss : list (list sfield * nat)) : string := text_of_lines (sindex_lines ss).
+Definition render_sources_tight (ss : list (list sfield * nat)) (last : list sfield) : string :=
+  text_of_lines (sindex_lines ss ++ sstanza_lines last).
+(* no final newline: the file ends inside the last checksum section, its last file line cut short *)
+Definition render_sources_unterminated (ss : list (list sfield * nat)) (last : list sfield)
+           (k : string) (fs : list (string * string * string)) (x : string * string * string) : string :=
+  text_of_lines (sindex_lines ss ++ sstanza_lines (last ++ [SFSection k fs])) +++ file_line x.
+
+Definition section_keys : list string :=
+  ["Files"; "Checksums-Sha1"; "Checksums-Sha256"; "Checksums-Sha512"; "Checksums-Sha3"; "Checksums-Md5"].
+Definition section_type (k : string) : option htype :=
+  if String.eqb k "Files" then Some MD5
+  else if String.eqb k "Checksums-Sha1" then Some SHA1
+  else if String.eqb k "Checksums-Sha256" then Some SHA256
+  else if String.eqb k "Checksums-Sha512" then Some SHA512
+  else None.
+
+(* a checksum section adds the files not yet known, in order, with the sizes it lists *)
+Fixpoint add_files (root : pypath) (files : list sfile) (xs : list (string * string * string)) : list sfile :=
+  match xs with
+  | [] => files
+  | (_, sz, n) :: r =>
+      if contains " " n then add_files root files r
+      else if negb (is_safe root (parse n)) then add_files root files r
+      else match parse_int sz with
+           | None => add_files root files r
+           | Some z => if has_file (parse n) files then add_files root files r
+                       else add_files root (files ++ [{| sf_path := parse n; sf_size := z |}]) r
+           end
+  end.
+
+(* what the format says each field does to the stanza being read *)
+Definition sfield_step (root : pypath) (st : sstate) (x : sfield) : sstate :=
+  match x with
+  | SFPackage v => {| ss_pkg := Some v; ss_dir := ss_dir st; ss_type := ss_type st; ss_files := ss_files st |}
+  | SFDirectory v =>
+      if is_safe root (parse v)
+      then {| ss_pkg := ss_pkg st; ss_dir := Some (parse v); ss_type := ss_type st; ss_files := ss_files st |}
+      else st
+  | SFSection k fs =>
+      match section_type k with
+      | Some t =>
+          {| ss_pkg := ss_pkg st; ss_dir := ss_dir st; ss_type := Some t;
+             ss_files := add_files root (ss_files st) fs |}
+      | None => {| ss_pkg := ss_pkg st; ss_dir := ss_dir st; ss_type := None; ss_files := ss_files st |}
+      end
+  | SFOther _ => {| ss_pkg := ss_pkg st; ss_dir := ss_dir st; ss_type := None; ss_files := ss_files st |}
+  end.
+
+Definition sstanza_entries (flt : filters) (ign : list string) (root : pypath) (st : list sfield) : list pentry :=
+  flush_s flt ign (fold_left (sfield_step root) st sinit) [].
+Definition sindex_entries flt ign root (ss : list (list sfield * nat)) : list pentry :=
+  dedup_last (flat_map (fun s => sstanza_entries flt ign root (fst s)) ss).
+
+(* well-formedness *)
+Definition wf_token (s : string) : bool := no_ws s && negb (String.eqb s EmptyString) && no_char ch_nl s.
+Definition wf_file (x : string * string * string) : bool :=
+  let '(h, sz, n) := x in
+  wf_token h && wf_token sz && wf_token n && match parse_int sz with Some _ => true | None => false end.
+Definition wf_other (f : field) : bool :=
+  wf_name (fname f) && no_char ch_nl (fvalue f) && forallb (no_char ch_nl) (fcont f)
+  && negb (String.eqb (fname f) "Package") && negb (String.eqb (fname f) "Directory")
+  && negb (String.eqb (fname f) "Files") && negb (String.prefix "Checksums-" (fname f)).
+Definition wf_sfield (x : sfield) : bool :=
+  match x with
+  | SFPackage v | SFDirectory v => wf_token v
+  | SFSection k fs => existsb (String.eqb k) section_keys && forallb wf_file fs
+  | SFOther f => wf_other f
+  end.
